@@ -3,9 +3,11 @@
 // A case is one scenario (router, flow, client kind, token type, signing algorithm, storage capabilities, flow variant).
 // run executes it once without faults; the journal of the verification storage yields the N storage calls of the
 // request under test. Then the scenario is rebuilt from scratch and re-run once for every (call position j in 1..N) x
-// (fault kind in error | deadline | partial-fill-then-error) and once per distinct storage method M x (error | deadline)
-// with every call of M failing: exhaustive over the positions of each scenario. Every faulted response is judged by an
-// oracle written from the statement (no panic; an error answer; no code / token / claims / active:true).
+// (fault kind in error | deadline | partial-fill-then-error | *oidc.Error server_error | plain error wrapping an *oidc.Error |
+// the failure sentinels the storage interface documents for the method at that position) and once per distinct storage
+// method M x (error | deadline | oidc | oidc-wrapped | documented sentinels of M) with every call of M failing: exhaustive
+// over the positions of each scenario. Every faulted response is judged by an oracle written from the statement (no panic;
+// an error answer; no code / token / device code / user code / claims / active:true).
 package c10
 
 import (
@@ -436,7 +438,7 @@ func lattice(full bool) []Case {
 var (
 	jwsRE       = regexp.MustCompile(`eyJ[A-Za-z0-9_-]{8,}\.[A-Za-z0-9_-]{8,}\.[A-Za-z0-9_-]*`)
 	inputRE     = regexp.MustCompile(`name="(code|id_token|access_token|refresh_token)"\s+value="([^"]+)"`)
-	tokenKeys   = []string{"access_token", "id_token", "refresh_token", "code", "device_code"}
+	tokenKeys   = []string{"access_token", "id_token", "refresh_token", "code", "device_code", "user_code"} // device flow: the device_code / user_code pair is the "code" of that flow
 	claimKeys   = []string{"sub", "email", "email_verified", "name", "given_name", "family_name", "preferred_username", "locale", "phone_number", "phone_number_verified", "address", "username", vkit.CustomClaim, "from_request", "act"}
 	piiNeedles  []string
 	fragileOnce sync.Once
@@ -629,7 +631,43 @@ func flushStats(rec *vkit.Recorder) {
 
 // ---- run -----------------------------------------------------------------------------------
 
-var faultKinds = []string{"error", "deadline", "partial"}
+// Fault kinds = the error values a storage hands back when a call fails. The interface leaves the choice to the storage, the
+// statement quantifies over "any call fails": a plain error, a context timeout, a failure after the out-parameter was filled /
+// the write was done ("partial"), a ready-made *oidc.Error (server_error), a plain error that wraps an *oidc.Error.
+var (
+	faultKinds      = []string{"error", "deadline", "partial", "oidc", "oidc-wrapped"}
+	methodWideKinds = []string{"error", "deadline", "oidc", "oidc-wrapped"}
+	// sentinelKinds: error values that the storage interface documents as a *failure* of that very method (injected only
+	// there: no real storage returns them from another method). op.ErrDuplicateUserCode = StoreDeviceAuthorization did not
+	// store the authorization. Deliberately absent: op.ErrInvalidRefreshToken from GetRefreshTokenInfo - that is the
+	// method's regular answer "this is not a refresh token", not a failure.
+	sentinelKinds = map[string][]string{"StoreDeviceAuthorization": {"dup-user-code"}}
+)
+
+func isSentinel(kind string) bool {
+	for _, ks := range sentinelKinds {
+		if has(ks, kind) {
+			return true
+		}
+	}
+	return false
+}
+
+// backed: the success answer r is a genuine one, i.e. what it hands out is what the storage of this execution holds.
+// Only used to delimit the tolerated region "documented try-again sentinel at ONE position, the library tried again, the
+// storage accepted"; flows without such a sentinel report false (then the statement is asserted as it stands).
+func backed(c Case, out outcome) bool {
+	switch c.Flow {
+	case "device_authorize":
+		dc, uc := out.resp.Str("device_code"), out.resp.Str("user_code")
+		if dc == "" || uc == "" {
+			return false
+		}
+		state, storedUC, ok := out.st.DeviceSnapshot(dc)
+		return ok && storedUC == uc && state.ClientID == "main"
+	}
+	return false
+}
 
 type infoT struct {
 	Calls    []string       `json:"calls"`
@@ -700,7 +738,9 @@ func run(c Case) (res *vkit.Result) {
 	count("fault_not_fired", 0)
 	reqNo := base.resp.Req
 
+	labelled := map[string]bool{}
 	judge := func(f vkit.Fault, where string) {
+		wide := f.Call == 0
 		out := execute(c, []vkit.Fault{f})
 		if out.setupNote != "" || out.resp.Req != reqNo {
 			count("rerun_diverged", 1)
@@ -740,6 +780,31 @@ func run(c Case) (res *vkit.Result) {
 			info.Outcomes["panic"]++
 			return
 		}
+		if isSentinel(f.Kind) {
+			count("sentinel_runs_"+method+"_"+f.Kind, 1)
+			if !labelled["sentinel:"+method+"/"+f.Kind] {
+				labelled["sentinel:"+method+"/"+f.Kind] = true
+				res.Label("sentinel:" + method + "/" + f.Kind)
+			}
+			if !wide {
+				// A documented try-again sentinel at ONE position: a library that tries the same method again and gets the
+				// storage to accept may answer with a genuine success - no storage failure is left standing, the statement is
+				// not contradicted. Tolerated only when the journal shows a later un-faulted call of the same method AND the
+				// success is backed by the storage; everything else is judged as the statement says. (With EVERY call of the
+				// method failing - the method-wide runs - there is no such region: error answer, no material.)
+				retried := false
+				for _, e := range out.calls {
+					if e.Call > pos && e.Method == method && !e.Fault {
+						retried = true
+					}
+				}
+				if retried && succeeded(c, r) && backed(c, out) {
+					count("grey_sentinel_retried_genuine_success", 1)
+					res.Label("grey:sentinel-fault-retried-genuine-success")
+					return
+				}
+			}
+		}
 		ok, how := errorAnswer(c, r, validated)
 		if info.Outcomes[how] == 0 {
 			res.Label("answer:" + how)
@@ -757,7 +822,7 @@ func run(c Case) (res *vkit.Result) {
 	}
 
 	for j := 1; j <= n; j++ {
-		for _, k := range faultKinds {
+		for _, k := range append(append([]string{}, faultKinds...), sentinelKinds[base.calls[j-1].Method]...) {
 			judge(vkit.Fault{Req: reqNo, Call: j, Kind: k}, "single")
 			info.Triples++
 			count("triples", 1)
@@ -769,10 +834,11 @@ func run(c Case) (res *vkit.Result) {
 		}
 	}
 	for _, m := range methods {
-		for _, k := range []string{"error", "deadline"} {
+		for _, k := range append(append([]string{}, methodWideKinds...), sentinelKinds[m]...) {
 			judge(vkit.Fault{Req: reqNo, Method: m, Kind: k}, "every call of "+m)
 			info.Methods++
 			count("method_wide_runs", 1)
+			count("method_wide_kind_"+k, 1)
 		}
 	}
 	res.NonTrivial = n >= 2
@@ -784,7 +850,9 @@ var prop = vkit.Prop[Case]{
 	ID: "C10",
 	Rule: "case = scenario (router x 15 flows x client kind x opaque/JWT access token x signing alg x storage capability shape incl. extras x flow variant: scopes, response type/mode, PKCE, userinfo assertion, " +
 		"id_token_hint, request object, subject/actor/requested token type, revoked token kind/hint, logout parameters); run = fault-free baseline, then the scenario rebuilt and re-run for EVERY storage-call position j of the request under test x " +
-		"{error, context.DeadlineExceeded, partial-fill-then-error} and for every distinct method x {error, deadline} with all its calls failing (extra keys: triples, triples_nontrivial = j>=2 or partial, positions, method_wide_runs); " +
+		"{error, context.DeadlineExceeded, partial-fill-then-error, *oidc.Error server_error, plain error wrapping an *oidc.Error, + the failure sentinel documented for the method at j: op.ErrDuplicateUserCode at StoreDeviceAuthorization} " +
+		"and for every distinct method x {error, deadline, oidc, oidc-wrapped, + its documented sentinels} with ALL its calls failing, retries included (extra keys: triples, triples_kind_*, triples_nontrivial = j>=2 or partial, positions, method_wide_runs, method_wide_kind_*, sentinel_runs_*); " +
+		"forbidden material includes device_code / user_code; a single-position sentinel fault that the library answers by calling the same method again is grey only if the success is backed by the storage (grey_sentinel_retried_genuine_success); " +
 		"non-trivial scenario = request under test makes >= 2 storage calls; distinct = normalised scenario; excluded and counted: scenarios whose fault-free baseline does not succeed (baseline_not_success)",
 	Gen: genCase,
 	Run: run,
